@@ -147,7 +147,20 @@ def fit_into_array(
     return output
 
 
-@lru_cache(maxsize=128)  # One must add parameter 'maxsize' for Python 3.7
+def _get_file_signature(filename: str | Path) -> tuple[int, ...] | None:
+    """Get a signature of a local file which changes when the file is modified."""
+    from pyxel.util import resolve_with_working_directory
+
+    try:
+        full_filename = Path(resolve_with_working_directory(filename)).expanduser()
+        stat = full_filename.stat()
+    except (OSError, ValueError):
+        # Not a local file (e.g. an url)
+        return None
+
+    return stat.st_mtime_ns, stat.st_ctime_ns, stat.st_size, stat.st_ino
+
+
 def load_cropped_and_aligned_image(
     shape: tuple[int, ...],
     filename: str | Path,
@@ -157,6 +170,33 @@ def load_cropped_and_aligned_image(
         Literal["center", "top_left", "top_right", "bottom_left", "bottom_right"] | None
     ) = None,
     allow_smaller_array: bool = True,
+) -> np.ndarray:
+    """Load image from file and fit to detector shape.
+
+    The result is cached until the file is modified.
+    """
+    return _load_cropped_and_aligned_image(
+        shape,
+        filename,
+        position_x,
+        position_y,
+        align,
+        allow_smaller_array,
+        _get_file_signature(filename),
+    )
+
+
+@lru_cache(maxsize=128)  # One must add parameter 'maxsize' for Python 3.7
+def _load_cropped_and_aligned_image(
+    shape: tuple[int, ...],
+    filename: str | Path,
+    position_x: int = 0,
+    position_y: int = 0,
+    align: (
+        Literal["center", "top_left", "top_right", "bottom_left", "bottom_right"] | None
+    ) = None,
+    allow_smaller_array: bool = True,
+    file_signature: tuple[int, ...] | None = None,
 ) -> np.ndarray:
     """Load image from file and fit to detector shape.
 
